@@ -194,3 +194,153 @@ func runFullScanHeld(r *vk.Run, keys world.Keys, id int) {
 		r.Violation("eventually-included", fmt.Sprintf("block %d (the tip) was applied (it arrived via %s) while the DA scan was inside the signature check of its header blob; the scan finished, three inclusion passes ran, but the DA-included height is %d", target, via, getD()), wit)
 	}
 }
+
+// runFullStateAheadWindow holds a full node in the middle of applying the tip - right before the first durable write it
+// makes at an instant at which the persisted state already names the block while the chain height is still the one below
+// (whatever writes the store makes, in whatever order; a node in which that instant never exists is fine and counted) - and
+// lets the inclusion check run to its end there: it must find the chain too low. Both parts of the block are on the DA layer
+// and were seen before the application began, so after the release the only thing that can bring the DA-included height to
+// the tip is a wake-up the node sends once the new height is visible.
+func runFullStateAheadWindow(r *vk.Run, keys world.Keys, id int) {
+	ctx := context.Background()
+	n := 3 + id%3
+	spec := world.ChainSpec{Initial: []uint64{1, 4}[id%2]}
+	for b := 0; b < n; b++ {
+		if (b+id)%4 == 2 {
+			spec.Blocks = append(spec.Blocks, nil)
+		} else {
+			spec.Blocks = append(spec.Blocks, [][]byte{[]byte(fmt.Sprintf("c07sa-%d-%d", id, b))})
+		}
+	}
+	p, err := world.ProduceChain(ctx, spec, keys)
+	if err != nil {
+		r.Inconclusive("the aggregator producing the reference chain failed (not this property's business): " + err.Error())
+		return
+	}
+	root := world.TempDir(vk.Root(), "C07-sa-*")
+	defer os.RemoveAll(root)
+	f, err := world.NewFNPrepared(ctx, p, root, func(f *world.FN) {})
+	if err != nil {
+		r.Violation("startup", err.Error(), map[string]any{"state_ahead_case": id})
+		return
+	}
+	defer func() { f.L.Stop() }()
+	wit := map[string]any{"state_ahead_case": id, "blocks": n, "initial_height": spec.Initial}
+	items := func(i int) []world.Item {
+		it := []world.Item{{I: i}}
+		if len(p.Txs[i]) > 0 {
+			it = append(it, world.Item{D: true, I: i})
+		}
+		return it
+	}
+	k := len(p.Heights) - 1
+	for i := 0; i < k; i++ {
+		if err := f.Do(world.Action{Kind: "da", DA: items(i)}); err != nil {
+			if err == world.ErrWatchdog {
+				r.Inconclusive("watchdog (state-ahead case)")
+			} else {
+				r.Violation("eventually-included", fmt.Sprintf("state-ahead case: DA delivery of block %d failed: %v", p.Heights[i], err), wit)
+			}
+			return
+		}
+	}
+	getD := func() uint64 { return f.N.M.GetDAIncludedHeight() }
+	target := p.Heights[k]
+	if !waitD(getD, target-1) {
+		r.Inconclusive("state-ahead case: the blocks below the observed one did not become DA-included (judged by the ordinary cases)")
+		return
+	}
+	var armed atomic.Bool
+	entered, release := make(chan struct{}, 1), make(chan struct{})
+	released := false
+	free := func() {
+		if !released {
+			released = true
+			close(release)
+		}
+	}
+	defer free()
+	f.N.DS.BeforeWrite = func([]string) {
+		if !armed.Load() {
+			return
+		}
+		if h, _ := f.N.Store.Height(ctx); h != target-1 {
+			return
+		}
+		st, err := f.N.Store.GetState(ctx)
+		if err != nil || st.LastBlockHeight != target {
+			return
+		}
+		if armed.CompareAndSwap(true, false) {
+			entered <- struct{}{}
+			<-release
+		}
+	}
+	armed.Store(true)
+	dh := f.DA.Height() + 1
+	blobs := [][]byte{p.HeaderBlob[k]}
+	if p.DataBlob[k] != nil {
+		blobs = append(blobs, p.DataBlob[k])
+	}
+	f.DA.Place(dh, blobs...)
+	f.DA.SetHeight(dh)
+	if err := f.L.RetrieveUntilIdle(f.DA, dh+1); err != nil {
+		armed.Store(false)
+		r.Inconclusive("state-ahead case: scanning the DA height of the observed block: " + err.Error())
+		return
+	}
+	select {
+	case <-entered:
+	case <-time.After(5 * time.Second):
+		armed.Store(false)
+		// no write is made while the state is ahead of the chain height: this node has no such instant
+		r.Count("state_ahead_window_never_open", 1)
+		free()
+		_ = f.L.SyncBarrier()
+		return
+	}
+	r.Hit("inclusion-check-between-state-write-and-height-write")
+	err = f.L.SignalBarrier("daIncluder", "daIncluder")
+	d := getD()
+	hNow, _ := f.N.Store.Height(ctx)
+	free()
+	if err != nil {
+		if err == world.ErrWatchdog {
+			r.Inconclusive("watchdog (state-ahead case, inclusion pass)")
+			return
+		}
+		r.Violation("below-chain-height", fmt.Sprintf("state-ahead case: the inclusion pass inside the application of block %d failed: %v", target, err), wit)
+		return
+	}
+	if d > hNow {
+		r.Violation("below-chain-height", fmt.Sprintf("while block %d was being applied (state written, chain height still %d) the inclusion check ran: the DA-included height became %d (chain height %d)", target, target-1, d, hNow), wit)
+		return
+	}
+	if err := f.L.SyncBarrier(); err != nil {
+		r.Inconclusive("state-ahead case: " + err.Error())
+		return
+	}
+	if h, _ := f.N.Store.Height(ctx); h != target {
+		r.Inconclusive(fmt.Sprintf("state-ahead case: chain height %d after the release, expected %d (not this scenario's business)", h, target))
+		return
+	}
+	reached := waitD(getD, target)
+	for i := 0; i < 5 && !reached; i++ {
+		reached = waitD(getD, target)
+	}
+	if reached {
+		r.Eval(fmt.Sprintf("state-ahead %d", id), true, wit)
+		return
+	}
+	for i := 0; i < 3; i++ {
+		if err := f.Do(world.Action{Kind: "include"}); err != nil {
+			r.Inconclusive("state-ahead case: external inclusion tick: " + err.Error())
+			return
+		}
+	}
+	if getD() == target {
+		r.Violation("eventually-included", fmt.Sprintf("header and data of block %d (the tip) were seen on the DA layer before the block was applied; an inclusion check ran to its end while the application stood between its state write and its height write (chain height %d: too low); after the application finished the DA-included height reached %d only when the check was woken from outside: the node's own wake-up came before the new height was visible, none after", target, target-1, target), wit)
+	} else {
+		r.Violation("eventually-included", fmt.Sprintf("header and data of every block up to %d are on the DA layer and were seen there, block %d has been applied, three inclusion passes ran, but the DA-included height is %d", target, target, getD()), wit)
+	}
+}
